@@ -52,7 +52,7 @@ FINDING_WHAT = ("a worker reaped before the daemon saw EOF on its pipes (watcher
 CFG_BASE = {
     "Workers": "<- W2", "Reds": "<- R1", "RedOf": "<- OneRed", "MaxFd": "= 4", "FdAny": "= FALSE",
     "Buffer": "= 2", "MaxChunk": "= 3", "MaxWrite": "= 3", "PipeCap": "= 3", "MaxGen": "= 2",
-    "MaxWrites": "= 2", "MaxCloses": "= 1", "Atomic": "= TRUE", "DumpAt": "<- NoDump",
+    "MaxWrites": "= 2", "MaxCloses": "= 1", "Atomic": "= TRUE", "DumpAt": "<- NoDump", "Record": "= FALSE",
     "Dev_StaleAfterReap": "= TRUE",
 }
 INV_ONE = ["TypeOK", "C17_Prefix", "C17_Done", "C17_Label", "C17_EOF", "C17_Fds", "C17_Watched"]
@@ -62,21 +62,23 @@ TWO = {"Reds": "<- R2", "RedOf": "<- TwoRed"}
 # name -> (constant overrides, invariants)
 MC = {
     "one_q": ({"MaxWrites": "= 1", "MaxCloses": "= 1"}, INV_ONE),
-    "two_q": (dict(TWO, MaxWrites="= 1", MaxCloses="= 0"), INV_TWO),
+    "two_q": (dict(TWO, MaxWrites="= 1", MaxCloses="= 0", MaxChunk="= 2", MaxWrite="= 2", PipeCap="= 2",
+                   Buffer="= 1"), INV_TWO),
     "one": ({"MaxWrites": "= 2", "MaxCloses": "= 1"}, INV_ONE),
     "two": (dict(TWO, MaxWrites="= 2", MaxCloses="= 0"), INV_TWO),
     "one_g3": ({"MaxWrites": "= 1", "MaxCloses": "= 0", "MaxGen": "= 3"}, INV_ONE),
-    "cex": (dict(TWO, MaxWrites="= 0", MaxCloses="= 0"), ["NoOrphanDump"]),
+    "cex": (dict(TWO, MaxWrites="= 0", MaxCloses="= 0", Record="= TRUE"), ["NoOrphanDump"]),
 }
 SIM = {"Workers": "<- W3", "Reds": "<- R2", "RedOf": "<- Sim3", "MaxFd": "= 8", "MaxWrite": "= 6", "PipeCap": "= 6",
-       "MaxGen": "= 6", "MaxWrites": "= 100000", "MaxCloses": "= 100000", "Atomic": "= FALSE", "DumpAt": "<- Dump4"}
+       "MaxGen": "= 6", "MaxWrites": "= 100000", "MaxCloses": "= 100000", "Atomic": "= FALSE", "DumpAt": "<- Dump4",
+       "Record": "= TRUE"}
 SIM_DEPTH = 62
 REDOF = {"sim": {1: 1, 2: 1, 3: 2}, "two": {1: 1, 2: 2}}
 MODEL_BUFFER = 2
 
 TIERS = {
-    "quick": {"mc": ["one_q", "two_q"], "sim_num": 40, "sim_shards": 4, "live_gens": 20, "live_timeout": 240},
-    "thorough": {"mc": ["one", "two", "one_g3"], "sim_num": 400, "sim_shards": 8, "live_gens": 200,
+    "quick": {"mc": ["one_q", "two_q"], "sim_num": 150, "sim_shards": 4, "live_gens": 20, "live_timeout": 240},
+    "thorough": {"mc": ["one", "two", "one_g3"], "sim_num": 600, "sim_shards": 8, "live_gens": 200,
                  "live_timeout": 900},
 }
 
@@ -486,22 +488,23 @@ def replay_all(classes, behs, redof, seed, verdict, stats, label):
         for e in beh[:done]:
             stats["actions"][e["a"]] = stats["actions"].get(e["a"], 0) + 1
         replay_obj = {"kind": "redirector-replay", "config": label, "redof": redof, "unit_bytes": usize,
-                      "salt": salt, "pidbase": pidbase, "seed": seed, "behaviour": strip_obs(beh)}
+                      "salt": salt, "pidbase": pidbase, "seed": seed, "script": strip_obs(beh), "behaviour": beh}
         for (at, w, msg) in rp.orphans:
             stats["orphans"] += 1
             if stats["orphans"] <= 2:
                 what = ("C17_Watched: step %d: Redirector.add_redirections of watcher %d raised ValueError(%r) for the "
-                        "fresh worker pid %d: the exception is swallowed by watcher.spawn_process and the running "
-                        "worker's output is never read (%s)" % (at, redof[w], msg, pidbase + rp.pid.get(w, 0),
-                                                              FINDING_WHAT))
+                        "fresh worker pid %d (a reaped worker of the other watcher left that number in the loop's "
+                        "handler table); watcher.spawn_process swallows the exception: the running worker's output "
+                        "is never read" % (at, redof[w], msg, pidbase + rp.pid.get(w, 0)))
                 verdict.attributed(FINDING, what, dict(replay_obj, failing_step=at))
         if mm is not None:
             entry = {"config": label, "behaviour": i, "step": done, "action": strip_obs(beh[done:done + 1]),
                      "what": mm.what}
             if mm.kind == "violation":
                 stats["violations"] += 1
-                verdict.violation("step %d (%s): %s" % (done, json.dumps(strip_obs(beh[done:done + 1])), mm.what),
-                                  dict(replay_obj, failing_step=done))
+                if stats["violations"] <= 8:          # every one is counted, the first ones are written out
+                    verdict.violation("step %d (%s): %s" % (done, json.dumps(strip_obs(beh[done:done + 1])),
+                                                            mm.what), dict(replay_obj, failing_step=done))
             else:
                 stats["divergences"].append(entry)
     return stats
@@ -731,12 +734,19 @@ def live_main(repo, gens, seed, scratch):
                         res["complete_checked"] += 1
                         if info[pid]["mode"] == "closeout" and info[pid]["state"] == "running":
                             # stdout was closed by the running worker: EOF must have unregistered the fd
-                            yield gen.sleep(0.05)
+                            # (no timing assertion: wait for the worker to really have closed it, then for the loop)
                             fd = info[pid]["proc"].stdout.fileno()
-                            res["eof_checked"] += 1
-                            if fd in getattr(loop, "handlers", {}):
-                                bad = ("C17_EOF: pid %d closed its stdout; fd %d is still registered with the loop"
-                                       % (pid, fd))
+                            t0 = time.time()
+                            while os.path.exists("/proc/%d/fd/1" % pid) and time.time() - t0 < 60:
+                                yield gen.sleep(0.01)
+                            if not os.path.exists("/proc/%d/fd/1" % pid) and not gone(pid):
+                                t0 = time.time()
+                                while fd in getattr(loop, "handlers", {}) and time.time() - t0 < 60:
+                                    yield gen.sleep(0.01)
+                                res["eof_checked"] += 1
+                                if fd in getattr(loop, "handlers", {}):
+                                    bad = ("C17_EOF: running pid %d closed its stdout; 60 s later fd %d is still "
+                                           "registered with the loop" % (pid, fd))
                             info[pid]["state"] = "eofchecked"
                 if bad:
                     res["violations"].append(bad)
@@ -909,6 +919,43 @@ def live_main(repo, gens, seed, scratch):
 
 
 # ------------------------------------------------------------------------------------------------------
+# bin/check C17 --replay <path>
+# ------------------------------------------------------------------------------------------------------
+def replay_main(prop, path):
+    with open(path) as fh:
+        rep = json.load(fh)
+    repo = os.environ.get("VERIF_REPO", "/repo")
+    if rep.get("kind") == "redirector-replay":
+        classes = load_circus(repo)
+        redof = dict((int(k), v) for k, v in rep["redof"].items())
+        rp = Replay(classes, rep["behaviour"], redof, rep["unit_bytes"], rep["salt"], rep["pidbase"])
+        done, mm = rp.run()
+        print("replayed %s: %d of %d steps; orphans %s; %s" % (path, done, len(rep["behaviour"]), rp.orphans,
+                                                                 mm.what if mm else "no mismatch"))
+        if rp.orphans or (mm is not None and mm.kind == "violation"):
+            print("VIOLATION property=%s replay=%s" % (prop, path))
+            return 1
+        return 0
+    if rep.get("kind") in ("live", "live-f1"):
+        from harness import tlcrun
+        with tlcrun.Scratch() as d:
+            p = subprocess.run([sys.executable, "-B", os.path.abspath(__file__), "--live", repo,
+                                str(rep.get("generations", 20)), str(rep["seed"]), d], stdout=subprocess.PIPE,
+                               stderr=subprocess.PIPE, timeout=900, text=True, cwd=d)
+        if p.returncode != 0:
+            print("MACHINERY-FAILURE: live run failed: " + p.stderr[-1500:])
+            return 2
+        live = json.loads(p.stdout.strip().splitlines()[-1])
+        print(json.dumps({k: live[k] for k in ("generations", "violations", "f1")}, indent=1))
+        if live["violations"] or (live.get("f1") or {}).get("reproduced"):
+            print("VIOLATION property=%s replay=%s" % (prop, path))
+            return 1
+        return 0
+    print("unknown replay kind %r" % rep.get("kind"))
+    return 2
+
+
+# ------------------------------------------------------------------------------------------------------
 # the check
 # ------------------------------------------------------------------------------------------------------
 def run(prop, tier, seed):
@@ -998,7 +1045,9 @@ def run(prop, tier, seed):
                 cex_info["length"] = len(cex[0])
                 cex_info["reproduced_on_real_code"] = cst["orphans"] > 0
                 cex_info["behaviour"] = strip_obs(cex[0])
-                if cst["orphans"] == 0:
+                if cst["orphans"] == 0 and cst["violations"] > 0:
+                    verdict.notes.append("the model's NoOrphan counterexample stopped at a violation before the orphan")
+                elif cst["orphans"] == 0:
                     verdict.machinery.append("the model's NoOrphan counterexample (Dev_StaleAfterReap) does not "
                                              "reproduce on the real code: " + json.dumps(cst["divergences"])[:600])
             elif "Error:" in r["out"] and "NoOrphanDump" not in r["out"]:
@@ -1042,7 +1091,7 @@ def run(prop, tier, seed):
                     verdict.attributed(FINDING, "LIVE, two real Watchers on one IOLoop: after watcher A's worker was "
                                        "reaped with its pipes still open in a grandchild, watcher B's respawned worker "
                                        "(pid %s) is running, is not in B.processes and none of its output reached B's "
-                                       "streams (%s)" % (f1.get("orphans"), FINDING_WHAT),
+                                       "streams" % (f1.get("orphans"),),
                                        {"kind": "live-f1", "seed": seed, "observed": f1})
                 elif "error" in f1:
                     verdict.notes.append("live F1 scenario error: " + f1["error"][-500:])
@@ -1058,6 +1107,7 @@ def run(prop, tier, seed):
     cov["mc_configs"] = mc_res
     cov["traces_validated_against_impl"] = sim["behaviours"] + cexs["behaviours"]
     cov["replay"] = {k: sim[k] for k in ("behaviours", "steps", "reads", "eofs", "bytes", "orphans", "actions")}
+    cov["replay"]["violations"] = sim["violations"] + cexs["violations"]
     cov["replay"]["wall_s"] = sim.get("wall_s")
     cov["replay"]["histories_dumped_by_tlc"] = sim.get("dumped")
     cov["replay"]["simulation_states"] = locals().get("sim_states", 0)
